@@ -82,9 +82,10 @@ def detect(sid, props, tier):
     d = os.path.join(SEEDED, sid)
     meta = json.load(open(os.path.join(d, "meta.json")))
     props = props or [meta["property"]]
-    rc, out = sh(["git", "status", "--porcelain"], "/repo")
-    assert out.strip() == "", "/repo is not clean: " + out
-    rc, out = sh(["git", "apply", os.path.join(d, "patch.diff")], "/repo")
+    repo = os.environ.get("REPO_ROOT", "/repo")
+    rc, out = sh(["git", "status", "--porcelain"], repo)
+    assert out.strip() == "", repo + " is not clean: " + out
+    rc, out = sh(["git", "apply", os.path.join(d, "patch.diff")], repo)
     assert rc == 0, out
     results = meta.get("detection", {})
     try:
@@ -97,7 +98,7 @@ def detect(sid, props, tier):
             results[f"{p}:{tier}{tag}"] = {"exit": rc, "detected": rc == 1, "sigs": sigs[:6], "wall_s": round(time.time() - t0, 1)}
             print(f"{sid} {p} {tier}: exit={rc} detected={rc == 1} sigs={sigs[:3]}")
     finally:
-        sh(["git", "checkout", "--", "."], "/repo")
+        sh(["git", "checkout", "--", "."], repo)
         # evidence files of the mutated run are not evidence: restore the committed ones
         sh(["git", "checkout", "--", "evidence"], os.environ.get("VERIF_ROOT", "/verif"))
         shutil.rmtree(os.path.join(os.environ.get("VERIF_ROOT", "/verif"), "replay"), ignore_errors=True)
